@@ -93,6 +93,17 @@ def family_docs():
                     break
         if cases1:
             out.append(('ascii1:%02x' % o, [{'code': 'c1', 'entries': cases1}], None, None, 1))
+    # whitespace-delimited values that begin like a reserved word (only the complete words are reserved)
+    words = ['global_minimum', 'Global_b', 'GLOBAL_x', 'globally', 'global', 'loop_x', 'LOOP_2', 'loops', 'loop', 'stop_sign',
+             'Stop_1', 'stopper', 'stop', 'data', 'DATA', 'save', 'saver_', 'datum_1']
+    for k, wd in enumerate(words):
+        v = ('char', wd, False)
+        w2 = ('char', words[(k + 5) % len(words)], False)
+        out.append(('keywordlike:%s' % wd, [{'code': 'kw', 'entries': [
+            ('item', '_s', v), ('loop', ['_l1', '_l2'], [[v, w2], [w2, v]]), ('item', '_li', ('list', (w2, v, ('char', 'z', False)))),
+            ('item', '_tb', ('table', (('k', v),))), ('item', '_last', v)]}], None, None, 2))
+        out.append(('keywordlike1:%s' % wd, [{'code': 'kw', 'entries': [
+            ('item', '_s', v), ('loop', ['_l1', '_l2'], [[v, w2], [w2, v]]), ('item', '_last', v)]}], None, None, 1))
     # text-field protocol family
     for t in PROTOCOL_TEXTS:
         if not GC.text_ok(t, 2):
